@@ -28,6 +28,8 @@ QUICK = [c for c in c04.QUICK if c[2] is None] + [
     ('split_orderbook_last', dict(T=4, ob_last=True, orders=((0, 1, 2.0), (2, 4, -1.5), (3, 4, 1.0))), '2h', 'A'),
     ('split_two_node', dict(T=4, freq='12h', unit='h', wacc=True), 'd', 'A'),
     ('orderbook_all_outside', dict(T=3, orders=((-3, -1, 1.0), (5, 7, 1.0))), None, 'B'),
+    ('scaled_periodic_base', dict(T=5, base='periodic_contract'), None, 'B'),
+    ('scaled_periodic_transport_base', dict(T=5, base='periodic_transport'), None, 'B'),
     ('storage_window_no_simult', dict(T=4, win_s=(2, 4), storage_kw=dict(no_simult_in_out=True)), None, 'A'),
     ('plant_window_late', dict(T=4, fuel=True, mr=2, win=(2, 4)), None, 'B'),
 ]
@@ -36,7 +38,7 @@ THOROUGH = QUICK + [c for c in c04.THOROUGH if c[2] is None and c not in c04.QUI
     ('contract_storage_mip', dict(T=3, storage_kw=dict(no_simult_in_out=True)), None, 'B'),
     ('contract_storage_msd', dict(T=4, storage_kw=dict(max_store_duration=2)), None, 'B'),
 ]
-SHAPE_OF = dict(c04.SHAPE_OF, storage_window_no_simult='contract_storage', plant_window_late='plant', plant_dict_costs='plant', names_collide='names', names_collide_T12='names', plant_win_empty='plant',
+SHAPE_OF = dict(c04.SHAPE_OF, scaled_periodic_base='scaled', scaled_periodic_transport_base='scaled', storage_window_no_simult='contract_storage', plant_window_late='plant', plant_dict_costs='plant', names_collide='names', names_collide_T12='names', plant_win_empty='plant',
                 orderbook_all_outside='orderbook', contract_storage_mip='contract_storage',
                 contract_storage_msd='contract_storage')
 GRIDV_QUICK = [('two_node', 'month_d'), ('plant_dict_costs', 'day_d_cet_dst'), ('windows_gap', 'quarter_min'), ('scaled_storage', 'day_h_useast_fall')]
